@@ -85,6 +85,9 @@ def gen_perm_twice(r, n):
     # relative paths with a directory component (resolved against fan2go's working directory, for the check AND the start)
     for path in ["bin/probe.sh", "./bin/probe.sh", "bin/../bin/probe.sh"]:
         ops.append(f"ex.rel path={path}")
+    # ... and through a symlinked directory followed by `..` (the kernel follows the link first)
+    ops.append("ex.rel path=current/../bin/probe.sh variant=bad")
+    ops.append("ex.rel path=current/../bin/probe.sh variant=good")
     ops.append("ex.count")
     return ops
 
@@ -161,6 +164,8 @@ def gen_exec(r, n):
     body.append(f"ex.userpair beh={r.pick(['sleep', 'execsleep'])} first={r.pick(['fanpwm', 'fanrpm', 'fanset'])} "
                 f"second={r.pick(['fanpwm', 'fanrpm', 'fanset', 'rpmavg'])} gap_ms={r.range(50, 400)}")
     body.append(f"ex.userpair beh={r.pick(['sleep', 'execsleep'])} first={r.pick(['fanpwm', 'fanrpm'])} second=rpmavg gap_ms={r.range(50, 400)}")
+    # the same failing command polled for > 5 s (a dead sensor command under the monitor)
+    body.append(f"ex.repeat beh={r.pick(['exit3', 'exit3out', 'notexec'])} n=13 gap_ms=450")
     # a cmd fan is handed ANY int (restorePwmEnabled writes back what getPwm printed at start-up)
     for v in [-1, 256, r.pick([1020, 65535, -300, 2**31])]:
         body.append(f"ex.user kind=fanset beh=exit0 v={v}")
